@@ -92,6 +92,9 @@ type fillRun struct {
 	wd       *ssa.Function
 	target   *ssa.Call
 	targets  map[*ssa.Call]bool
+	wp       *ssa.Function
+	fwdCalls []*ssa.Call // calls of forwarders to writePacket in WriteData
+	pktArg   ssa.Value   // the packet handed to the (dominating) target
 	header   *ssa.BasicBlock
 	makers   map[*ssa.Function]bool
 	fresh    int
@@ -165,11 +168,16 @@ func c04ExactFill(c *Ctx) {
 		return
 	}
 	lk := layout.New(c.P)
-	fr := &fillRun{c: c, ip: lk.IP, wd: wd, makers: map[*ssa.Function]bool{}, problems: map[string]bool{}}
-	// the writePacket call inside a loop
+	fr := &fillRun{c: c, ip: lk.IP, wd: wd, wp: wp, makers: map[*ssa.Function]bool{}, problems: map[string]bool{}}
+	// the writePacket call inside a loop — or the call of a method that only passes the packet on to writePacket (it is inlined by
+	// the walk, and the writePacket call inside it is what gets judged)
+	fwd := ssau.Forwarders(wp)
 	for _, b := range wd.Blocks {
 		for _, in := range b.Instrs {
-			if call, ok := in.(*ssa.Call); ok && call.Call.StaticCallee() == wp {
+			if call, ok := in.(*ssa.Call); ok && (call.Call.StaticCallee() == wp || fwd[call.Call.StaticCallee()].Map != nil) {
+				if call.Call.StaticCallee() != wp {
+					fr.fwdCalls = append(fr.fwdCalls, call)
+				}
 				if fr.targets == nil {
 					fr.targets = map[*ssa.Call]bool{}
 				}
@@ -668,7 +676,7 @@ func (fr *fillRun) walkFrom(b *ssa.BasicBlock, idx int, st *fstate, depth int, k
 			}
 			fr.store(st, k, sv)
 		case *ssa.Call:
-			if fr.targets[in] {
+			if (fr.targets[in] || in.Call.StaticCallee() == fr.wp) && !fr.isFwdCall(in) {
 				fr.judge(st, in)
 				st.wrote = true
 				st.env[in] = fval{tuple: []fval{{isInt: true, f: fr.sym("written", 0)}, {isPtr: true, pk: fpNil}}}
@@ -909,7 +917,15 @@ func (fr *fillRun) judgeDrop(st *fstate) {
 	}
 	fr.ndrops++
 	path := strings.Join(st.desc, ",")
-	pk, ok := fr.addrKey(st, fr.target.Call.Args[1])
+	parg := fr.target.Call.Args[len(fr.target.Call.Args)-1]
+	for _, a := range fr.target.Call.Args {
+		if pt, isP := a.Type().Underlying().(*types.Pointer); isP {
+			if n, isN := pt.Elem().(*types.Named); isN && n.Obj().Name() == "Packet" {
+				parg = a
+			}
+		}
+	}
+	pk, ok := fr.addrKey(st, parg)
 	if !ok {
 		return
 	}
@@ -937,6 +953,15 @@ func (fr *fillRun) judgeDrop(st *fstate) {
 		return
 	}
 	fr.dropBad = append(fr.dropBad, fmt.Sprintf("[%s] the first packet of the unit is given up although %s bytes are free and the PES header needs 6 + H: not known to be too small (cannot show %s >= 0)", path, avail.String(), goal.String()))
+}
+
+func (fr *fillRun) isFwdCall(c *ssa.Call) bool {
+	for _, f := range fr.fwdCalls {
+		if f == c {
+			return true
+		}
+	}
+	return false
 }
 
 func (fr *fillRun) judge(st *fstate, call *ssa.Call) {
